@@ -25,3 +25,48 @@ def text_rows(x):
 
 def strip_nul(s):
     return s.replace("\x00", "")
+
+
+def _owner(a):
+    while getattr(a, "base", None) is not None and isinstance(a.base, np.ndarray):
+        a = a.base
+    return a
+
+
+def bounds_violation(x):
+    """M6 result-bounds sanitizer: None if the returned array lies inside its owning allocation and its ragged index
+    structure lies inside its data; otherwise a description."""
+    from numpy.lib.array_utils import byte_bounds
+    name = type(x).__name__
+    if isinstance(x, np.ndarray):
+        if x.size == 0:
+            return None
+        own = _owner(x)
+        lo, hi = byte_bounds(x)
+        olo, ohi = byte_bounds(own)
+        if lo < olo or hi > ohi:
+            return "ndarray view [%d,%d) outside owning allocation [%d,%d)" % (lo, hi, olo, ohi)
+        return None
+    if name in ("RaggedArray", "EncodedRaggedArray"):
+        shape = x._shape if hasattr(x, "_shape") else x.shape
+        try:
+            starts = np.asarray(shape.starts)
+            lengths = np.asarray(shape.lengths)
+        except Exception:
+            return None
+        data = x.ravel() if name == "RaggedArray" else None
+        raw = getattr(x, "_data", None) if name == "RaggedArray" else getattr(x, "_data", None)
+        if np.any(lengths < 0):
+            return "negative row length"
+        if np.any(starts < 0):
+            return "negative row start"
+        size = None
+        d = getattr(x, "_data", None)
+        if d is not None:
+            size = d.size if hasattr(d, "size") else len(d)
+        if size is not None and len(starts) and int((starts + lengths).max()) > size:
+            return "row end %d beyond data size %d" % (int((starts + lengths).max()), size)
+        return None
+    if name == "EncodedArray":
+        return bounds_violation(x.raw()) if hasattr(x, "raw") else None
+    return None
